@@ -71,8 +71,6 @@ Fixpoint balanced (d n : nat) : split :=
 
 Definition andl (l : list bool) : bool := forallb (fun b => b) l.
 
-Definition zmax (x : Z) (l : list Z) : Z := fold_right Z.max x l.
-Definition zmin (x : Z) (l : list Z) : Z := fold_right Z.min x l.
 
 Definition bits_eqb (a : N) (x : spec_float) : bool := (a =? f64_to_bits x)%N.
 
@@ -147,13 +145,12 @@ Definition eval16 (c : case16) : verdict :=
     let prop :=
       if in_contract then
         let d := loads_def k p ws in
-        let dm := match d with [] => 0 | x :: r => zmax x r - zmin x r end in
+        let dm := spread d in
         andl [obs_is zs_eqb d (lo_loads o); obs_is zs_eqb d (lo_loads_f o);
               obs_is Z.eqb dm (lo_max o); obs_is Z.eqb dm (lo_max_f o);
               obs_is bits_eqb (imbalance_f64 k d) (lo_imb o); obs_is bits_eqb (imbalance_f64 k d) (lo_imb_f o);
               if Nat.eqb (length targets) k then
-                obs_is Z.eqb (match map (fun lt : Z * Z => fst lt - snd lt) (combine d targets) with
-                              | [] => 0 | x :: r => zmax x r end) (lo_target o)
+                obs_is Z.eqb (max_excess d targets) (lo_target o)
               else true]
       else true in
     {| corr_ok := corr; prop_ok := prop; cls := if in_contract then 5 else 6 |}
